@@ -89,7 +89,7 @@ func (d DID) PubKey() (crypto.PubKey, error) {
 		P256:      ecdsaPubKeyUnmarshaler(elliptic.P256()),
 		P384:      ecdsaPubKeyUnmarshaler(elliptic.P384()),
 		P521:      ecdsaPubKeyUnmarshaler(elliptic.P521()),
-		Secp256k1: crypto.UnmarshalSecp256k1PublicKey,
+		Secp256k1: secp256k1PubKeyUnmarshaler,
 		RSA:       rsaPubKeyUnmarshaller,
 	}[d.code]
 	if !ok {
@@ -127,6 +127,16 @@ func ecdsaPubKeyUnmarshaler(curve elliptic.Curve) crypto.PubKeyUnmarshaller {
 
 		return crypto.UnmarshalECDSAPublicKey(pkix)
 	}
+}
+
+func secp256k1PubKeyUnmarshaler(data []byte) (crypto.PubKey, error) {
+	// did:key carries the 33-byte compressed point. The libp2p unmarshaller also
+	// accepts the uncompressed and hybrid forms, which would give one key several
+	// distinct DIDs.
+	if len(data) != 33 {
+		return nil, fmt.Errorf("secp256k1 public key must be a 33-byte compressed point, got %d bytes", len(data))
+	}
+	return crypto.UnmarshalSecp256k1PublicKey(data)
 }
 
 func rsaPubKeyUnmarshaller(data []byte) (crypto.PubKey, error) {
